@@ -105,6 +105,9 @@ class WMSServer(Server):
                 query = MapQuery(sub_bbox, sub_size, SRS(params.srs), params.format)
 
         actual_layers = odict()
+        # names in the order they are drawn: a layer that is requested
+        # twice (LAYERS=a,b,a) is drawn twice, below and above b
+        render_order = []
         for layer_name in map_request.params.layers:
             layer = self.layers[layer_name]
             # only add if layer renders the query
@@ -113,8 +116,10 @@ class WMSServer(Server):
                 # remove already added (then hidden) layers
                 if layer.is_opaque(query):
                     actual_layers = odict()
+                    render_order = []
                 for layer_name, map_layers in layer.map_layers_for_query(query):
                     actual_layers[layer_name] = map_layers
+                    render_order.append(layer_name)
 
         authorized_layers, coverage = self.authorized_layers(
             'map', actual_layers.keys(), map_request.http.environ, query_extent=(query.srs.srs_code, query.bbox))
@@ -122,8 +127,10 @@ class WMSServer(Server):
         self.filter_actual_layers(actual_layers, map_request.params.layers, authorized_layers)
 
         render_layers = []
-        for layers in actual_layers.values():
-            render_layers.extend(layers)
+        for layer_name in render_order:
+            # (layers that are not authorized were removed from actual_layers)
+            if layer_name in actual_layers:
+                render_layers.extend(actual_layers[layer_name])
 
         self.update_query_with_fwd_params(query, params=params,
                                           layers=render_layers)
